@@ -274,6 +274,7 @@ func init() {
 		// fact: some function of pkg/lql compares a depth counter with the constant cMaxNestingDepth and returns an error, and every
 		// function that hands a text to participle (`….ParseString(text, …)`) calls it on that text first.
 		nestGuard, nestMax := false, int64(0)
+		guardKind := 0
 		{
 			files, _ := filepath.Glob(filepath.Join(repo, "pkg/lql/*.go"))
 			sort.Strings(files)
@@ -315,6 +316,15 @@ func init() {
 					})
 					if cmp && ret {
 						guardFn = fd.Name.Name
+						guardKind = 1
+						ast.Inspect(fd.Body, func(n ast.Node) bool {
+							if ce, ok := n.(*ast.CallExpr); ok {
+								if se, ok := ce.Fun.(*ast.SelectorExpr); ok && se.Sel.Name == "Lex" {
+									guardKind = 2 // counts on the tokens of the parser's own lexer
+								}
+							}
+							return true
+						})
 					}
 				}
 			}
@@ -353,6 +363,12 @@ func init() {
 		l.p("/-- every function of pkg/lql that hands a text to the recursive-descent parser first rejects texts whose parentheses are")
 		l.p("nested deeper than `cMaxNestingDepth` -/")
 		l.p("def lqlNestingGuard : Bool := %s", leanBool(nestGuard))
+		if !nestGuard {
+			guardKind = 0
+		}
+		l.p("/-- how the guard counts: 0 = no guard, 1 = its own scan over the bytes of the text (skipping what it takes for string")
+		l.p("literals; commit 8131efe), 2 = on the tokens of the parser's own lexer -/")
+		l.p("def lqlGuardKind : Nat := %d", guardKind)
 		l.p("/-- `cMaxNestingDepth` (0 when there is no such constant) -/")
 		l.p("def lqlMaxNesting : Nat := %d", nestMax)
 
